@@ -99,6 +99,7 @@ func TestC09(t *testing.T) {
 	st := StatsFor("C09")
 	rapid.Check(t, func(t *rapid.T) {
 		v := NewVestWorld([]VType{{Name: "vt0", Free18: "50000000000000000", LockupNs: dayNs, VestNs: 10 * dayNs}})
+		v.Tx = DrawTxMode(t)
 		nowS := nsTime(v.NowNs).Unix()
 		// world: an owner with a pool, a vesting sender with locked coins
 		owner := KeyAcc(1).Addr
@@ -271,7 +272,6 @@ func TestC09(t *testing.T) {
 		}
 		nt := tk != 0
 		st.Case(nt, map[string]interface{}{"target": targetKinds[tk], "msg": fmt.Sprintf("%T", msg), "signer": signerIdx, "m": fmt.Sprint(msg)},
-			"target_"+targetKinds[tk], fmt.Sprintf("msg_%T", msg), fmt.Sprintf("accepted_%v", res.OK()), fmt.Sprintf("panic_%v", res.Panic != nil),
-			fmt.Sprintf("sender_%s_splitlike_accepted_%v", []string{"not_staking", "delegated_vesting", "delegated_free"}[senderDelegation], splitLike && res.OK()))
+			append(append(v.TxClasses(), "target_"+targetKinds[tk], fmt.Sprintf("msg_%T", msg), fmt.Sprintf("accepted_%v", res.OK()), fmt.Sprintf("panic_%v", res.Panic != nil)), fmt.Sprintf("sender_%s_splitlike_accepted_%v", []string{"not_staking", "delegated_vesting", "delegated_free"}[senderDelegation], splitLike && res.OK()))...)
 	})
 }
